@@ -184,7 +184,10 @@ class HbScenario(cmdscn.CmdScenario):
                              'than %ds' % (now, lh, THRESH))
         is_checker = choice.kind == 'act' and getattr(
             choice.obj, 'owner', None) == 'checker'
-        if is_checker and not ctx.new_exceptions:
+        if is_checker and not ctx.new_exceptions and \
+                getattr(choice.obj, 'done', True):
+            # (judged when the pass has finished: in overlap mode a pass
+            # takes several steps)
             notask = set(a['id'] for a in post['action_executions_v2']
                          if not a['task_execution_id'])
             for aid, (lh, sync, st) in hb.items():
@@ -380,6 +383,12 @@ def scenarios(tier):
                     prog, silent=silent, passes=passes, results=res)
                 jobs.append((scn, 1 if quick else 3, 40 if quick else 900,
                              1))
+                if pname == 'single' and silent and pos != 'before':
+                    # the checker pass overlapping with the late genuine
+                    # result inside their transactions
+                    jobs.append((common.variant(scn, '/overlap', rp=True),
+                                 1 if quick else 2, 40 if quick else 900,
+                                 1))
         # heartbeats keep a slow (late answering) action alive
         res = {k: ['S'] for k in keys}
         scn = HbScenario('hb/%s/heartbeat-then-silent' % pname, prog,
